@@ -352,6 +352,8 @@ HAZARD_BYTES = [
     b"a = 1\nEND\n\x00\x00\x00", b"a = 1\x00\nEND\n", "a = 1\nEND\n".encode("utf-16"),
     b"/* only a comment */\n", b"a = 1 /* unterminated\nEND\n", b"a = 'x\nEND\n",
     b"a = 1\nEND\n" + bytes(range(256)),
+    b"a = 1 # c\rb = 2\rEND\r", b"# hdr\ra = 1\r\nb = 2 # x\r\nEND\r\n",
+    b"a = 1 # c\r\nb = 2\r\nEND\r\n",
 ]
 
 
